@@ -272,4 +272,69 @@ theorem cancelJob_is_settle (c : Cfg) (hm : c.mode = Mode.cancel) (s : State) (r
   · simp [hc, cancelCur, emit]
   · simp [hc, hr]
 
+/-- the loop of `_ctrl_start` over everything queued before the sentinel -/
+theorem start_loop (c : Cfg) (W : State → State) (s : State) (q : List Job) (data : Option Job) (fuel : Nat)
+    (hq : s.queue = q) (hs : s.stopped = true) (hf : q.length < fuel) :
+    ctrl_start_loop1 (ctrlP c W) [()] () fuel data s
+      = (startAll { s with queue := [] } q, .next none) := by
+  induction q generalizing s data fuel with
+  | nil =>
+    cases fuel with
+    | zero => omega
+    | succ n =>
+      rw [ctrl_start_loop1]
+      simp only [ctrl_start_iter1, M.bind, ctrlP_get_sentinel c W s hq hs, Option.isNone_none, if_true, M.pure,
+        startAll]
+      cases s; simp_all
+  | cons k q ih =>
+    cases fuel with
+    | zero => simp at hf
+    | succ n =>
+      have h2 := ih (startRun { s with queue := q } k) (some k) n rfl hs (by simp at hf; omega)
+      rw [ctrl_start_loop1]
+      simp only [ctrl_start_iter1, M.bind, ctrlP_get_cons c W s k q hq, Option.isNone_some, Bool.false_eq_true,
+        if_false, M.pure]
+      have hsp : (ctrlP c W).spawn (some k) { s with queue := q } = (startRun { s with queue := q } k, .next ()) := rfl
+      simp only [hsp]
+      rw [h2]
+      rfl
+
+/-! ### one run: `_output_coro_wrapper` / `_output_coro` -/
+
+/-- what the awaited user coroutine does (the script of the model: it sleeps until `t`, then returns or
+    raises according to the job's data -- or a cancellation is delivered inside it at `t`) -/
+inductive Outcome where
+  | ends (t : Nat)
+  | cancelledAt (t : Nat)
+
+/-- `self.set_output(self.output + d)` -/
+def addOut (d : Int) (s : State) : State :=
+  emit { s with output := (s.output + d).toNat } (.out (s.output + d).toNat)
+
+/-- the shielded guard sleep: time passes, cancellations do not shorten it (`shield_cancel` is tied above) -/
+def sleepGuard (c : Cfg) (s : State) : State := { s with now := s.now + c.guard }
+
+/-- the leaves of `_output_coro` (which does not await itself) -/
+def runP0 (c : Cfg) (oc : Outcome) : RunPrims State Exc Job Unit Unit where
+  awaitCoro j := fun s =>
+    let s0 := emit s (.start j)
+    match oc with
+    | .ends t =>
+      let s1 := emit { s0 with now := max s0.now t } (.done j)
+      if j.data.fail then (s1, .raise .error) else (s1, .next ())
+    | .cancelledAt t => (emit { s0 with now := max s0.now t } (.cancelled j), .raise .cancelled)
+  excIs := excIs
+  guardPositive := decide (0 < c.guard)
+  shieldedGuardSleep := M.modify (sleepGuard c)
+  sendCancel _ j := M.modify fun s => emit s (.canc j)
+  sendError _ _ j := M.modify fun s => emit s (.err j)
+  sendSuccess _ _ j := M.modify fun s => emit s (.succ j)
+  addOutput d := M.modify (addOut d)
+  runCoro _ := M.pure ()
+
+/-- for the wrapper, `await self._output_coro(data)` is the translated `_output_coro` itself -/
+def runP (c : Cfg) (oc : Outcome) : RunPrims State Exc Job Unit Unit :=
+  { runP0 c oc with runCoro := fun j => output_coro (runP0 c oc) [()] [()] [()] j }
+
 end Edzed.TrTie
+
